@@ -225,6 +225,15 @@ def check_scalar(t, v, col, warm=False):
         return
     if t in STRING_MARSHALLED and (type(m) is not str or m != text):
         col.violation("marshal-is-canonical-text", base, f"marshal({vsrc}, t={t}) = {m!r}, canonical text {text!r}", bucket=t)
+    if isinstance(v, enum.Enum) and (type(m) is not type(v.value) or m != v.value):
+        # the wire form of an enum member is its value - the plain value, also when the enum mixes in str / int
+        col.violation("marshal-is-member-value", base, f"marshal({vsrc}, t={t}) = {m!r} ({type(m).__name__}), the member's value is {v.value!r}", bucket=t)
+    # the library's own wire form comes back as the value, too (a duration's own text is the text judged below)
+    ko, ro = tl.call(tl.unmarshal, T, m) if t != "timedelta" else ("ok", v)
+    col.ev()
+    if ko == "exc" or not deep_same(ro, v):
+        c_ = dict(base, wire=repr(m))
+        col.violation("own-wire-round-trip", c_, f"unmarshal({t}, marshal({vsrc})) with wire {m!r:.80}: " + (f"raised {tl.exc_name(ro)}" if ko == "exc" else why_different(ro, v)), bucket=t)
     if t == "timedelta":
         if type(m) is not str:
             col.violation("marshal-is-canonical-text", base, f"marshal(timedelta) = {m!r}", bucket=t)
